@@ -121,6 +121,20 @@ def gen_ds(r, ctx=None, kind=None):
     return f"ds {kind} {fmt} {dim} {r.below(50)} " + " ".join(map(str, bs))
 
 
+SHR_VARIANTS = ["autoenc", "copy", "subset", "selfappend", "twolabeled"]
+
+
+def gen_shr(r, ctx=None, variant=None, kind=None, fmt=None):
+    """several objects sharing batch objects in ONE archive"""
+    variant = variant or r.choice(SHR_VARIANTS); kind = kind or r.choice(["dense", "sparse"]); fmt = fmt or r.choice(["text", "binary"])
+    dim = r.choice([1, 2, 3, 5])
+    bs = [r.choice([0, 1, 1, 2, 3, 4]) for _ in range(r.choice([0, 1, 1, 2, 3, 4]))]
+    if ctx:
+        ctx.hist("shared_variant", f"{variant}/{kind}/{fmt}"); ctx.hist("shared_batches", len(bs))
+        ctx.hist("shared_boundary", "no-batch" if not bs else "only-empty-batches" if sum(bs) == 0 else "single-batch" if len(bs) == 1 else "regular")
+    return f"shr {variant} {fmt} {kind} {dim} {r.below(50)} " + " ".join(map(str, bs))
+
+
 def gen_vec(r, ctx=None):
     n = r.choice([0, 0, 1, 2, 3, 5]); old = r.choice([0, 1, 3, 8])
     if ctx: ctx.hist("vec_saved_vs_target", f"{'empty' if n == 0 else 'one' if n == 1 else 'many'}-into-{'empty' if old == 0 else 'shorter' if old < n else 'longer' if old > n else 'equal'}")
@@ -234,6 +248,7 @@ def coverage(ctx, cases):
             if t[-1] == "PROBE-FAILS": continue
             reached.update(t[3].split(","))
         elif t[0] == "ds": reached.update(DS_KINDS.get(t[1], "").split(","))
+        elif t[0] == "shr": reached.update((DATA + ",LabeledData,matrix,compressed_matrix").split(","))
         elif t[0] == "vec": reached.add("vector")
     reached &= set(found)
     missing = sorted(set(found) - reached)
@@ -256,13 +271,13 @@ def run(ctx):
     ctx.assumptions += ["the target object is of the same type, wired to equivalent external objects (kernels, sub-models, objective "
                         "function via init(), random number generator) and configured by the same constructor arguments — allow-list categories external/config",
                         "optimizer state is restored into an optimizer that was init()-ialised on the same objective (from another point, and stepped)"]
-    translate(ctx)
+    ok_t = translate(ctx)
     ctx.prove(["SharkVerif.Gen.Serial", "SharkVerif.Gen.SerialCodec", "SharkVerif.Props.C18"])
     if not ctx.quick:
         ctx.leanchecker(["SharkVerif.Props.C18"])
     exe = build(ctx)
-    drv = ctx.driver("drv_c18")
-    if not exe or not drv:
+    drv = ctx.driver("drv_c18") if ok_t and not any(not b_.get("resolved") for b_ in ctx.breaks) else None
+    if not exe:
         return
     skip = set()
     for name, ok in ctx.c18_probes.items():
@@ -282,13 +297,27 @@ def run(ctx):
             for bs in ("", "0", "1", "0 0", "0 2 0", "1 1", "3 0 1"):
                 cases.append([f"ds {kind} {fmt} {r.choice([0, 1, 2, 3])} {r.below(50)} {bs}".strip()])
     cases += [[gen_ds(r, ctx)] for _ in range(nds)]
+    # shared batch objects inside one archive: every variant x element kind x format on fixed batch structures, then random
+    for variant in SHR_VARIANTS:
+        for kind in ("dense", "sparse"):
+            for fmt in ("text", "binary"):
+                for bs in ("2 1", "1", "3 0 2", ""):
+                    cases.append([f"shr {variant} {fmt} {kind} {r.choice([1, 2, 3])} {r.below(50)} {bs}".strip()])
+    cases += [[gen_shr(r, ctx)] for _ in range(100 if ctx.quick else 4000)]
     cases += [[gen_vec(r, ctx)] for _ in range(40 if ctx.quick else 2000)]
     cases += [[f"wrap {r.choice(['text', 'binary'])} {r.choice([0, 1, 2, 5])} {r.below(20)}"] for _ in range(10 if ctx.quick else 300)]
     ctx.cov["evaluations"] = len(cases)
     ctx.cov["distinct_nontrivial"] = len({c[0] for c in cases if c[0].startswith("obj") or len(c[0].split()) >= 7})
     ctx.sample({"ops": [cases[0][0], cases[len(cases) // 2][0], cases[-1][0]]})
     coverage(ctx, cases)
-    core.correspond(ctx, "K-C18", cases, [exe], [drv], classify, env=ENV, keep_prefix=0, max_report=8, timeout=1800)
+    if drv:
+        core.correspond(ctx, "K-C18", cases, [exe], [drv], classify, env=ENV, keep_prefix=0, max_report=8, timeout=1800)
+    else:
+        # the translator rejected its source, a regenerated obligation failed or the driver no longer builds: the tie is
+        # broken, but the harness and its independent oracle do not need the model — search the implementation alone
+        # for a CONCRETE failing input (datasets and shared-batch archives first: they are the cheapest)
+        order = sorted(cases, key=lambda c: {"shr": 0, "ds": 1, "vec": 2, "wrap": 3}.get(c[0].split()[0], 4))
+        core.oracle_only(ctx, "K-C18[oracle-only]", order, [exe], classify, env=ENV, max_report=6, timeout=900)
 
 
 def replay(ctx, rep):
